@@ -70,12 +70,21 @@ CounterOK(o, line) ==
 \* C07: framed delivery = direct delivery.
 FramedOK(r) == "framed" \in DOMAIN r => r.framed = r.direct
 
+\* C07 at the pipe level: the record written to a real FIFO and read by the real
+\* ingester chain yields the events and logins of the direct hand-over.
+FifoOK(r) ==
+    "fifo" \in DOMAIN r =>
+        /\ r.fifo.err = ""
+        /\ r.fifo.events = r.direct.events
+        /\ r.fifo.logins = [i \in 1..Len(r.direct.logins) |-> [pid |-> r.direct.logins[i].pid, cred |-> r.direct.logins[i].cred]]
+
 Checks(r) ==
     LET o == r.direct
         exact == r.fam \in {"grammar"}
     IN { <<"Universal", Universal(o, r.line)>>,
          <<"Counter",   CounterOK(o, r.line)>>,
          <<"Framed",    FramedOK(r)>>,
+         <<"FifoEq",    FifoOK(r)>>,
          <<"Exact",     exact => Exact(o, r)>>,
          <<"Login",     exact => LoginOK(o, r)>>,
          <<"FramedExact", (exact /\ "framed" \in DOMAIN r) => (Exact(r.framed, r) /\ LoginOK(r.framed, r))>>,
